@@ -335,6 +335,29 @@ pub(crate) mod k9 {
     }
 }
 
+#[cfg(kani)]
+pub(crate) mod k10 {
+    use super::*;
+
+    /// S1 on one cell: contains_point (parry2d projection) decides exact on-segment membership for the 5 x 5
+    /// lattice points of a cell (x in quarter units 0..=4, y in half units 0..=4)
+    #[kani::proof]
+    #[kani::solver(kissat)]
+    pub(crate) fn check_contains_point_one_cell() {
+        let v: [u8; 6] = kani::any();
+        kani::assume(v[0] <= 4 && v[1] <= 4 && v[2] <= 4 && v[3] <= 4 && v[4] <= 4 && v[5] <= 4);
+        kani::assume(!(v[0] == v[2] && v[1] == v[3]));
+        let pt = |x: u8, y: u8| Point::new(x as f32 * 0.25, y as f32 * 0.5);
+        let l = Line::new_noswap(pt(v[0], v[1]), pt(v[2], v[3]), false);
+        let q = pt(v[4], v[5]);
+        kani::cover!(true);
+        let (ax, ay, bx, by, qx, qy) = (v[0] as i32, 2 * v[1] as i32, v[2] as i32, 2 * v[3] as i32, v[4] as i32, 2 * v[5] as i32);
+        let cross = (bx - ax) * (qy - ay) - (by - ay) * (qx - ax);
+        let inside = qx >= ax.min(bx) && qx <= ax.max(bx) && qy >= ay.min(by) && qy <= ay.max(by);
+        assert!(l.contains_point(q) == (cross == 0 && inside), "contains_point is exact on the cell lattice");
+    }
+}
+
 #[cfg(all(svgbob_verif, test))]
 pub(crate) mod b {
     use super::*;
